@@ -89,7 +89,7 @@ class C07(Check):
         "a successful one, write_block with pending records, append after an empty flush, or >=2 reopenings."
     )
     assumptions = ["a reopen is preceded by a flush (records never flushed before the writer is dropped are not 'submitted so far' at any flush)"]
-    required_labels = ["failed-then-success", "write_block-with-pending", "reopens>=2", "append-after-empty-flush", "family:empty", "family:rec", "family:flt", "family:nest", "stream:file", "validator:on", "validator:off", "auto-dump", "metadata-dict-reused", "block:iterated", "block:twice"]
+    required_labels = ["failed-then-success", "write_block-with-pending", "reopens>=2", "append-after-empty-flush", "family:empty", "family:rec", "family:flt", "family:nest", "reopen:position-after-reader", "reopen:position-in-the-middle", "stream:file", "validator:on", "validator:off", "auto-dump", "metadata-dict-reused", "block:iterated", "block:twice"]
     quick = (1200, 1)
     thorough = (1500, 16)
 
@@ -143,6 +143,7 @@ class C07(Check):
                         "metadata": d.choice([None, {"late": "meta"}]),
                         "validator": d.p(0.3),
                         "sync_interval": d.choice([1, 50, 10**4]),
+                        "pos": d.choice(["after-reader", "middle", "end", "end", "end"]),
                     }
                     if w == "reopen":
                         ops.append(["reopen", args])
@@ -358,12 +359,22 @@ class C07(Check):
                     kw["metadata"] = dict(args["metadata"])
                 if args["marker"] is not None:
                     kw["sync_marker"] = args["marker"]
+                pos = args.get("pos", "end")
                 if not isinstance(fo, io.BytesIO):
                     path = fo.name
                     fo.close()
-                    fo = open(path, "a+b")
-                else:
+                    fo = open(path, "a+b" if pos == "end" else "r+b")
+                if pos == "end":
                     fo.seek(0, 2)
+                elif pos == "after-reader":
+                    # the caller looked at the file first (schema, metadata): the stream stands somewhere behind the header
+                    fo.seek(0)
+                    guard("read-history-file", lambda: fastavro.reader(fo).writer_schema)
+                    labels.add("reopen:position-after-reader")
+                else:
+                    fo.seek(0)
+                    fo.seek(max(1, len(self._contents(fo)) // 2))
+                    labels.add("reopen:position-in-the-middle")
                 reopens += 1
                 if reopens >= 2:
                     labels.add("reopens>=2")
